@@ -2,6 +2,8 @@ import PbVerif.Lemmas.Weighting
 import PbVerif.Lemmas.WExpr
 import PbVerif.Lemmas.WeightingReal
 import PbVerif.Lemmas.Wrapper
+import PbVerif.Lemmas.LoopTbl
+import PbVerif.Gen.Loops
 /-! C09 — each reweighting step follows the documented rule and the stop rule is honest.
 The rules are the definitions of `Model/Weighting.lean` (the same definitions the driver runs at
 `Float`), proved here over every linear ordered field with any positive monotone `exp`, any `sqrt`
@@ -205,5 +207,60 @@ theorem exhausted_weights_rule (budget : Nat) (tol : Rat) (d : Nat → Rat) (exi
     ((runLoop budget tol d exit).2 = .converged → r.2 = some r.1) ∧
     ((runLoop budget tol d exit).2 = .early → r.2 = some r.1) ∧
     ((runLoop budget tol d exit).2 = .exhausted → 0 < budget → r.2 = some (r.1 - 1) ∧ r.1 = budget) := returned_pairing budget tol d exit
+
+/-! ### the stop rule of each method's loop AS WRITTEN (Route A, `Gen/Loops`, regenerated on every run)
+
+For every row of the translated table, every `max_iter ≥ guard` with a non-empty range, every tol and every numeric behaviour
+(`d k` = value recorded in step k, `fl k p` = the opaque flag tested at position p of the body in step k). `steps` is the step
+(0-based iteration) in which the loop stopped. -/
+section Loops
+open PbVerif.Gen PbVerif.LoopTbl PbVerif.Lemmas.LoopTbl
+
+omit hT in
+/-- the decidable row conditions hold for every translated method (re-checked against the regenerated table) -/
+theorem loops_rows_ok {r : Row} (hr : r ∈ loopTable) : r.ok = true :=
+  List.all_eq_true.mp (by decide +kernel : loopTable.all Row.ok = true) r hr
+
+omit hT in
+/-- never later: the loop of a method that tests `x < tol` (alone or `or`-ed with a second criterion) is still running only if no
+earlier recorded value was below tol — it stops at the FIRST such index; never earlier: it stops only because the value recorded in
+that very step is below tol (`converged`: that value is the last entry of the record), because all `budget` steps were used
+(`exhausted`), or because a flag tested in that step was set (`early`) -/
+theorem loops_stop_first (r : Row) (hr : r ∈ loopTable) (n : Nat) (hn : r.guard ≤ n) (hb : r.budget n ≠ 0) (tol : Rat)
+    (d : Nat → Rat) (fl : Nat → Nat → Bool) :
+    (hasTol r.body = true → ∀ j, j < (run r n tol d fl).steps → ¬ d j < tol) ∧
+    ((run r n tol d fl).stop = .converged →
+      (run r n tol d fl).steps + 1 = (run r n tol d fl).slice.toNat ∧ d (run r n tol d fl).steps < tol) ∧
+    ((run r n tol d fl).stop = .exhausted →
+      (run r n tol d fl).steps = r.budget n ∧ (run r n tol d fl).slice.toNat = r.budget n) ∧
+    ((run r n tol d fl).stop = .early →
+      (∃ q, fl (run r n tol d fl).steps q = true) ∧ (run r n tol d fl).steps < r.budget n ∧
+      (run r n tol d fl).slice.toNat ≤ (run r n tol d fl).steps + 1 ∧ (run r n tol d fl).steps ≤ (run r n tol d fl).slice.toNat) := by
+  have g := ((ok_safe r (loops_rows_ok hr) n hn tol d fl).ran hb).good
+  refine ⟨fun ht j hj => g.first ht j (Nat.zero_le _) hj, fun h => ?_, fun h => ?_, fun h => ?_⟩
+  · obtain ⟨h1, h2, h3⟩ := g.conv h
+    rw [h3]
+    exact ⟨by omega, h2⟩
+  · obtain ⟨h1, h2⟩ := g.exh h
+    exact ⟨by omega, by omega⟩
+  · obtain ⟨h1, h2, h3, h4⟩ := g.early h
+    exact ⟨h1, by omega, h3, h4⟩
+
+omit hT in
+/-- which methods that covers: every translated loop tests `x < tol` on the value it has just recorded, except those keeping a
+two-column record with a conjunction of two criteria (jbcd: `calc_tol_1 < tol and calc_tol_2 < tol_2`), which stop at the first step
+where BOTH hold (`loops_len_eq_skeleton` in C01) -/
+theorem loops_tol_tested : loopTable.all (fun r => hasTol r.body || (r.cols == 2 && r.shape.map (·.2) == some .tolAnd)) = true := by
+  decide +kernel
+
+-- non-vacuity: arpls' row (0-based, early exit before the record) on a stream crossing tol = 1/4 at step 3
+example : (loopTable.find? (·.key == "arpls")).map (fun r =>
+      (hasTol r.body, (run r 9 (1/4) (fun k => 1 / ((k : Rat) + 1)) (fun _ _ => false)).steps,
+       (run r 9 (1/4) (fun k => 1 / ((k : Rat) + 1)) (fun _ _ => false)).stop,
+       (run r 2 (1/4) (fun k => 1 / ((k : Rat) + 1)) (fun _ _ => false)).stop,
+       run r 9 (1/4) (fun k => 1 / ((k : Rat) + 1)) (fun k _ => k == 2))) =
+    some (true, 4, .converged, .exhausted, ⟨false, [(0, 0), (1, 1)], 2, 2, .early⟩) := by decide +kernel
+
+end Loops
 
 end PbVerif.C09
